@@ -35,3 +35,25 @@ MUTANTS += [
     {"name": "c10-no-handback-on-cancel", "checks": ["C10", "C03"],
      "edits": [(R, "                # consumption was stopped while this message waited for a free slot: hand it back\n                await self._hand_back(key)\n                raise", "                raise")]},
 ]
+MUTANTS += [
+    {"name": "c09-release-twice", "checks": ["C09"],
+     "edits": [(R, "        self._tasks.discard(task)\n        self._limiter.release()\n", "        self._tasks.discard(task)\n        self._limiter.release()\n        self._limiter.release()\n")]},
+    {"name": "c09-never-unpause", "checks": ["C09"],
+     "edits": [(R, "                    await self._limiter.acquire()\n                    await consumer.unpause()\n", "                    await self._limiter.acquire()\n")]},
+    {"name": "c09-no-acquire-when-unlocked", "checks": ["C09"],
+     "edits": [(R, "                else:\n                    await self._limiter.acquire()\n", "                else:\n                    pass\n")]},
+    {"name": "c09-never-release", "checks": ["C09"],
+     "edits": [(R, "        self._tasks.discard(task)\n        self._limiter.release()\n", "        self._tasks.discard(task)\n")]},
+]
+MUTANTS += [
+    {"name": "c06-grid-plus-one-dropped", "checks": ["C06", "C19"],
+     "edits": [(PA, "defer_by_times = (now - base) // self.delay.defer_by + 1", "defer_by_times = (now - base) // self.delay.defer_by")]},
+    {"name": "c06-tried-not-reset", "checks": ["C06"],
+     "edits": [(PA, '        object.__setattr__(copy.retries, "already_tried", 0)\n', '')]},
+    {"name": "c06-reschedule-also-acks", "checks": ["C06", "C02"],
+     "edits": [(P, "            await self._conn.message_broker.requeue(\n                key,\n                payload,\n                parameters._prepare_reschedule(),\n            )", "            await self._conn.message_broker.requeue(\n                key,\n                payload,\n                parameters._prepare_reschedule(),\n            )\n            await self._conn.message_broker.ack(key)")]},
+    {"name": "c06-anchor-not-kept", "checks": ["C06"],
+     "edits": [(PA, '            object.__setattr__(copy.delay, "delay_until", next_execution_time)\n', '            pass\n')]},
+    {"name": "c06-timestamp-not-restarted", "checks": ["C06"],
+     "edits": [(PA, '        object.__setattr__(copy, "timestamp", datetime.now())\n        return copy', '        return copy')]},
+]
